@@ -80,6 +80,7 @@ type recCron struct {
 	jobs       map[string]*recJob
 	calls      []interface{}
 	spy        *spyApp
+	refuse     int // the next `refuse` registrations fail (the cron service is unreachable)
 }
 
 func (c *recCron) key(loc, id string) string {
@@ -97,6 +98,13 @@ func (c *recCron) ScheduleEvent(ctx *core.Context, se *cron.ScheduledEvent) erro
 	if _, _, err := cron.ParseSchedule(se.Schedule); err != nil {
 		return err
 	}
+	c.mu.Lock()
+	if c.refuse > 0 {
+		c.refuse--
+		c.mu.Unlock()
+		return fmt.Errorf("verif: cron service unreachable")
+	}
+	c.mu.Unlock()
 	var ev core.Map
 	if err := json.Unmarshal([]byte(se.Event), &ev); err != nil {
 		return err
@@ -411,6 +419,16 @@ func (s *c15Sys) step(op map[string]interface{}, now int64) map[string]interface
 				return hookErr(errR(err))
 			}
 		}
+		return okR(true)
+	case "cronOutage":
+		n, _ := op["n"].(float64)
+		rc, isRec := s.cr.(*recCron)
+		if !isRec {
+			return errS("input")
+		}
+		rc.mu.Lock()
+		rc.refuse = int(n)
+		rc.mu.Unlock()
 		return okR(true)
 	case "reload":
 		if _, ok := s.locs[name]; !ok {
